@@ -20,7 +20,10 @@ TRUSTED = ["get_kernel_type's three regular expressions are modelled by prefix/i
 
 
 def gen(rng, tier, no, wide=False):
-    return C.gen_with(rng, C.every_rank_has_device, **({"stream_zero": True} if rng.random() < 0.15 else {}))
+    force = {"stream_zero": True} if rng.random() < 0.15 else {}
+    if rng.random() < 0.1:
+        force.update({"nranks": rng.choice([2, 3]), "filler": -90})       # many rank-specific names: global symbol ids beyond 127
+    return C.gen_with(rng, C.every_rank_has_device, **force)
 
 
 def wf(case) -> bool:
